@@ -77,4 +77,6 @@ def get_temp_directory_suffix(files: Union[List[Path], List[str]]) -> str:
     @param files: the list of fj-code files.
     @return: the suffix
     """
-    return f'__{"_".join(os.path.basename(str(file)) for file in files)}__temp_directory'
+    # a file name (the directory's too) is limited to 255 bytes: many / long source names must not break the temp directory.
+    names = "_".join(os.path.basename(str(file)) for file in files)
+    return f'__{names[:100]}__temp_directory'
